@@ -201,9 +201,23 @@ func (cb *caseBuilder) genMergePlan(class string, withRebuild bool) (final int, 
 			in.Seg = l
 			ins = append(ins, in)
 		}
+		if r.Chance(1, 5) {
+			// an inner merge in which nothing survives (a zero-document segment that still
+			// carries the field names of its inputs)
+			for x := range ins {
+				all := make([]uint32, cb.n[ins[x].Seg])
+				for d := range all {
+					all[d] = uint32(d)
+				}
+				ins[x] = MergeIn{Seg: ins[x].Seg, Drops: all}
+			}
+		}
 		m, api := mergeMode(r)
 		inner := cb.addMerge(ins, m, api, bufSize(r))
-		leaves = append([]int{inner}, leaves[j:]...)
+		rest := append([]int{}, leaves[j:]...)
+		// the inner merge takes part at any position of the outer one
+		pos := r.Intn(len(rest) + 1)
+		leaves = append(append(append([]int{}, rest[:pos]...), inner), rest[pos:]...)
 	}
 	var ins []MergeIn
 	for _, l := range leaves {
@@ -739,6 +753,10 @@ func genC13(tier string, seed uint64) []genOut {
 		if len(cb.u.terms) > 5 {
 			cb.u.terms = cb.u.terms[:5]
 		}
+		if class == "chunk" {
+			cb.u.dvOK[string(cb.u.fields[0])] = true
+			cb.u.dvAll = true
+		}
 		// several segments: built (general encoding) and merged (1-hit encodings)
 		var segs []int
 		docs, m, api := cb.genLeaf(class, "d")
@@ -764,6 +782,17 @@ func genC13(tier string, seed uint64) []genOut {
 				}
 			default:
 				cb.iterQueries(sg, 2)
+			}
+		}
+		if class == "chunk" {
+			// one doc-value reader (kept by the reuse context) across 1024-document chunks
+			n0 := cb.n[segs[0]]
+			for j := 0; j < 6; j++ {
+				var order []int
+				for k := 0; k < 6; k++ {
+					order = append(order, []int{r.Intn(n0), 1023, 1024, 0, n0 - 1, 1025, 5}[r.Intn(7)]%n0)
+				}
+				cb.q("dv", itoa(segs[0]), hxList(cb.queryFields()), intList(order))
 			}
 		}
 		out = append(out, genOut{cb.c, true, class})
@@ -797,6 +826,21 @@ func genC16(tier string, seed uint64) []genOut {
 			for _, f := range append(cb.queryFields(), []byte{}) {
 				cb.q("stats", itoa(x), hx(f))
 			}
+		}
+		// aggregation across segments through CollectionStats.Merge, in several orders, with
+		// unknown fields first (the accumulator then is the "all zero" answer)
+		nseg := len(cb.c.Segs)
+		for j := 0; j < 6 && nseg > 1; j++ {
+			k := r.Range(2, min(4, nseg))
+			var idx []string
+			for x := 0; x < k; x++ {
+				idx = append(idx, itoa(r.Intn(nseg)))
+			}
+			fs := append(cb.queryFields(), []byte{})
+			cb.q("statsmerge", strings.Join(idx, ","), hx(fs[r.Intn(len(fs))]))
+		}
+		for _, f := range cb.queryFields() {
+			cb.q("stats", itoa(sg), hx(f))
 		}
 		out = append(out, genOut{cb.c, merged && cb.n[sg] > 0, class})
 	}
